@@ -35,13 +35,13 @@ def sec_findings():
     k=json.load(open(f'{V}/known_findings.json'))['findings']
     seen={}
     for f in k:
-        key=(f['property'],f.get('commit',''))
+        key=(f['property'],f.get('commit','') or f.get('region',''))
         seen.setdefault(key,[]).append(f)
     rows=["| property | status | commit | what | assertion label(s) / region |","|---|---|---|---|---|"]
     for (pid,c),fs in sorted(seen.items()):
         what=fs[0]['what'].replace('|','/')[:300]
         labs="; ".join(sorted(set((f['label']+' ['+f.get('region','')+']') for f in fs))).replace('|','/')
-        rows.append(f"| {pid} | {fs[0]['status']} | {c} | {what} | {labs[:400]} |")
+        rows.append(f"| {pid} | {fs[0]['status']} | {c if fs[0]['status']=='fixed' else '-'} | {what} | {labs[:400]} |")
     return "\n".join(rows)
 def sec_seeds():
     rows=["| seeded change | property | quick tier | detected by (harness: label) |","|---|---|---|---|"]
